@@ -300,6 +300,9 @@ def execute_enum(record, trace=False):
             return True
 
         def after_commit(actor, probe_only=False):
+            if not probe_only:
+                # a fault armed for this commit that did not fire must not linger into later transactions
+                s.os.fail_plan = None
             if probe_only or ctx["tx"] <= skip_tx:
                 return
             ctx["acc"] = [_acc(s, s.model.generation)]
